@@ -21,6 +21,16 @@ CHECKS = {
         "note": "Trusted: the TLA+ transcription of the documented grammar and SemVer section 11; TLC; numbers compared as padded digit strings. Bounds: alphabet and length of enumerated strings, vocabulary size.",
         "technique": TLA + "spec-generated cases replayed into the code and recorded calls trace-validated against the spec",
     },
+    "C03": {
+        "text": "Bounded-exhaustive: for every tree size t<=16/64 (distinct records) and t<=5/7 (all two-content sequences), every n, and every member of a mutation family over proof hashes, length, order, index, sizes, leaf and roots, TLC checks that the RFC 9162 iterative verifier and the RFC 6962 recursive verifier of the specification agree, and the verdicts and proofs are replayed into tlog.CheckRecord/CheckTree/ProveRecord/ProveTree; proofs on random trees up to 2000 records are trace-validated by position.",
+        "note": "Trusted: the TLA+ transcription of RFC 6962 2.1.1-2.1.2 and RFC 9162 2.1.3.2/2.1.4.2; hashes as free terms (SHA-256 collision resistance); refmerkle concretization. Bounds: tree sizes, mutation family.",
+        "technique": TLA + "spec-generated (proof, sizes, index, hashes) tuples with RFC verdicts replayed into the checkers; recorded proofs trace-validated",
+    },
+    "C09": {
+        "text": "Bounded-exhaustive: TLC explores the append-only log specification (all two-content sequences to length 8/10, distinct sequences to 32/64) with the layout bijection, stored-hash = MTH, count and tree-hash invariants; every state is replayed into tlog with hash terms concretized; record/tree text encodings over a small alphabet; recorded logs of thousands of appends are trace-validated by position.",
+        "note": "Trusted: TLA+ transcription of RFC 6962 2.1 and of the documented write order; hashes as free terms; 32-bit TLC integers bound coordinates to < 2^30; base64/strconv trusted.",
+        "technique": TLA + "state-by-state replay of the log specification into tlog and trace validation of recorded appends",
+    },
 }
 
 NOT_APPLICABLE = {}
